@@ -193,6 +193,57 @@ pub fn gen(rng: &mut Rng, tier: Tier, out: &mut Vec<String>) {
         }
         out.push(line);
     }
+    // occluder scenes: a wide far triangle whose spans are hidden at BOTH ends by two near triangles and
+    // visible in the gap between them (whatever a rasterizer decides for a whole span from its end
+    // pixels, or from its first pixel, shows here); the far triangle is submitted last
+    for _ in 0..(if tier == Tier::Quick { 40 } else { 800 }) {
+        let (w, h) = (20 + rng.below(50) as u32, 4 + rng.below(9) as u32);
+        let mut line = format!(
+            "scene door=r tgt=fb dims={w}x{h} vp=0,0,{w},{h} cull=n sort=n test=l cw=1 dw=1 sh=0 proj=none zinit={} k=1 sel=0",
+            h32(0.0)
+        );
+        let mut verts: Vec<Vec<f32>> = vec![];
+        let mut put = |rng: &mut Rng, x: f32, y: f32, wc: f32| {
+            verts.push(vec![x * wc, y * wc, 0.9 * wc - 1.0, wc, rng.f32_in(-10.0, 10.0)]);
+        };
+        let gap_l = rng.f32_in(-0.5, -0.05);
+        let gap_r = rng.f32_in(0.05, 0.5);
+        let wn = rng.f32_in(1.2, 2.0);
+        let wf = wn * rng.f32_in(1.5, 3.0);
+        // near left, near right (both span the whole height), then the far one
+        let (y1, y2, x3) = (rng.f32_in(-1.0, 1.0), rng.f32_in(-1.0, 1.0), rng.f32_in(-0.6, 0.6));
+        put(rng, -1.0, -1.0, wn); put(rng, gap_l, y1, wn); put(rng, -1.0, 1.0, wn);
+        put(rng, 1.0, -1.0, wn); put(rng, 1.0, 1.0, wn); put(rng, gap_r, y2, wn);
+        let (ya, yb) = if rng.bool() { (-0.9, 0.9) } else { (0.9, -0.9) };
+        put(rng, -0.98, ya, wf); put(rng, 0.98, ya, wf); put(rng, x3, yb, wf);
+        drop(put);
+        push_verts(&mut line, &verts);
+        line += " t 3 0 1 2 3 4 5 6 7 8";
+        out.push(line);
+    }
+    // near-tie scenes: two or three large overlapping triangles on parallel planes whose depths differ by
+    // 0.12 %..0.4 % (outside the property's 0.1 % ambiguity band): any margin, bias or tolerance in the
+    // depth comparison makes the winner depend on the submission order
+    for _ in 0..(if tier == Tier::Quick { 40 } else { 800 }) {
+        let flags = format!("cull=n sort=n test=l cw=1 dw=1 sh=0 proj=none zinit={}", h32(0.0));
+        let (mut line, _, _) = header(rng, 'r', "fb", &flags, 1);
+        let n = 2 + rng.below(2) as usize;
+        let mut wc = 10f32.powf(rng.f32_in(0.0, 6.0));
+        let mut verts: Vec<Vec<f32>> = vec![];
+        for _ in 0..n {
+            for _ in 0..3 {
+                let (nx, ny) = (rng.f32_in(-1.3, 1.3), rng.f32_in(-1.3, 1.3));
+                verts.push(vec![nx * wc, ny * wc, 0.9 * wc - 1.0, wc, rng.f32_in(-10.0, 10.0)]);
+            }
+            wc *= 1.0 + rng.f32_in(0.0012, 0.004);
+        }
+        push_verts(&mut line, &verts);
+        line += &format!(" t {n}");
+        for j in 0..n {
+            line += &format!(" {} {} {}", 3 * j, 3 * j + 1, 3 * j + 2);
+        }
+        out.push(line);
+    }
     // crowded painter scenes: 65..110 small triangles, each in its own thin depth slab, submitted
     // NEAREST FIRST in one call (anything that sorts or batches only part of the list shows here)
     for _ in 0..(if tier == Tier::Quick { 6 } else { 120 }) {
